@@ -722,6 +722,78 @@ def _second_yield(cfg, y, fam_loops):
     return None
 
 
+def rule_success_only_against_own_kind(em, rep, rid):
+    rep.rule(rid, 'a term that is not a variable unifies with another non-variable term only of its own kind: in the unify method '
+                  'of every term class other than the variable class (helpers pasted in), each place that creates a success - a '
+                  'once-iterator object, or the argument-list unifier - is dominated by the true branch of isinstance(<other>, '
+                  '<that class>); an atom that also succeeds against a string, a number or a compound term is reported')
+    cell = em.cell()
+    fam = unifier_family(em)
+    arrays = [f for f in fam if f.cls is None and f.is_generator]
+    n = 0
+    for c in em.repo.instantiated():
+        if c.module.name != 'engine' or c is cell.cls or 'to_python' not in {m for k in em.repo.mro(c) for m in k.methods}:
+            continue
+        u = em.repo.lookup_method(c, 'unify')
+        if u is None or u.is_generator or u.module.name != 'engine':
+            continue
+        v = em.view(u, keep=tuple(arrays) + tuple(g for g in em.engine.functions.values() if g.name in ('unify', 'get_value')))
+        cfg = em.cfg(v)
+        dom = cfg.g.dominators(cfg.entry)
+        own = {k.name for k in em.repo.all_classes(('engine',)) if c in em.repo.mro(k)}
+        for m in cfg.nodes:
+            if m.kind != 'call' or not isinstance(m.ast, ast.Call):
+                continue
+            call = m.ast
+            ci = em.cg.constructed_class(v, call)
+            is_success = ci is not None and iterator_class_kind(em, ci) == 'once'
+            is_arrays = any(g in arrays for g in em.cg.resolve_callable(v, call.func))
+            if not (is_success or is_arrays):
+                continue
+            n += 1
+            key = '%s:%s' % (u.qname if u.cls is c else '%s(%s)' % (u.qname, c.name), norm(call)[:40])
+            ok = False
+            for t in dom[m]:
+                e = t.ast if t.kind == 'test' else None
+                if isinstance(e, ast.Call) and is_name(e.func, 'isinstance') and len(e.args) == 2:
+                    names = {x.id for x in ast.walk(e.args[1]) if isinstance(x, ast.Name)}
+                    if names and names <= own:
+                        r = cfg.g.reach([cfg.entry], edge_ok=lambda lbl, a, b, t=t: not (a is t and lbl == 'true'))
+                        if m not in r:
+                            ok = True
+            if ok:
+                rep.ok(rid, key, 'only when the other term is a %s' % c.name, v.loc(call))
+            else:
+                rep.violation(rid, key, 'a %s can unify with something that is not a %s: this success is not confined to the branch '
+                              'where the other (dereferenced) term is of the same class, so two syntactically different terms '
+                              'unify' % (c.name, c.name), v.loc(call))
+    rep.minimum('success sites in the unify methods of non-variable term classes', n, 2)
+    # compound terms: the two argument lists are handed to the argument-list unifier whole
+    for c in em.repo.instantiated():
+        if c.module.name != 'engine' or c is cell.cls:
+            continue
+        u = em.repo.lookup_method(c, 'unify')
+        if u is None or u.is_generator or u.module.name != 'engine':
+            continue
+        v = em.view(u, keep=tuple(arrays) + tuple(g for g in em.engine.functions.values() if g.name in ('unify', 'get_value')))
+        for call in [x for x in own_nodes_ordered(v.node) if isinstance(x, ast.Call) and any(g in arrays for g in em.cg.resolve_callable(v, x.func))]:
+            key = '%s:%s' % (u.qname, norm(call)[:40])
+            built = []
+            for a in call.args:
+                if isinstance(a, ast.Name) and a.id not in v.all_params:
+                    defs = [s_ for s_ in own_nodes(v.node) if isinstance(s_, ast.Assign) and any(is_name(t, a.id) for t in s_.targets)]
+                    if any(isinstance(d.value, (ast.ListComp, ast.List, ast.BinOp)) or
+                           (isinstance(d.value, ast.Subscript) and isinstance(d.value.slice, ast.Slice)) for d in defs):
+                        built.append(a.id)
+                elif isinstance(a, (ast.ListComp, ast.List, ast.BinOp)) or (isinstance(a, ast.Subscript) and isinstance(a.slice, ast.Slice)):
+                    built.append(norm(a)[:20])
+            if built:
+                rep.violation(rid, key, 'the argument-list unifier is given lists put together on the spot (%s) instead of the two terms\' '
+                              'own argument lists: whatever is left out of them is not compared, so terms that differ there unify' % ', '.join(built), v.loc(call))
+            else:
+                rep.ok(rid, key, 'the terms\' own argument lists', v.loc(call))
+
+
 def iterator_class_kind(em, c):
     """'never' (no path of __next__ returns), 'once' (flag protocol), 'many'"""
     nx = c.methods.get('__next__')
